@@ -39,8 +39,17 @@ EvFlags(e) ==
 
 StateFlag(e) == IF Abs(e.tok - tok') > 1 THEN {"state"} ELSE {}
 
-TStep ==
-  /\ l <= Len(Ev)
+\* the judge re-synchronises with the observed bucket (token count, refill time stamp) after a
+\* deviation has been flagged, so that one float rounding at a threshold does not colour the
+\* verdicts of the following calls
+InSync == IF l = 1 THEN TRUE ELSE (Abs(Ev[l - 1].tok - tok) <= 1 /\ Ev[l - 1].st = stamp)
+Resync == /\ l > 1 /\ l <= Len(Ev) + 1 /\ ~InSync
+          /\ tok' = Ev[l - 1].tok /\ stamp' = Ev[l - 1].st
+          /\ flags' = flags \cup {"state"}
+          /\ UNCHANGED <<now, cap, rn, grants, epoch, mcap, mrn, last, nops, tid, l>>
+
+TEvent ==
+  /\ l <= Len(Ev) /\ InSync
   /\ LET e == Ev[l] IN
        \/ /\ e.now > now
           /\ Advance(e.now - now)
@@ -55,11 +64,14 @@ TStep ==
           /\ l' = l + 1
           /\ UNCHANGED tid
 
+
+TStep == Resync \/ TEvent
+
 TSpec == TInit /\ [][TStep]_tvars
 
 Final == flags
          \cup (IF Window THEN {} ELSE {"window"})
          \cup (IF WindowAll THEN {} ELSE {"windowall"})
 
-Report == IF l = Len(Ev) + 1 THEN PrintT(<<"DONE", tid, Final>>) ELSE TRUE
+Report == IF l = Len(Ev) + 1 /\ InSync THEN PrintT(<<"DONE", tid, Final>>) ELSE TRUE
 =============================================================================
